@@ -91,6 +91,8 @@ pub fn c04(tier: &str, flavor: Flavor) -> Spec {
         }
         alpha.push(Op::Pres { k, c: 1 });
         alpha.push(Op::Rem { k });
+        // a lookup through get_mut (also of an expired, not yet swept entry) is not a removal
+        alpha.push(Op::Mut { k });
     }
     alpha.push(Op::Clear);
     alpha.push(Op::Adv { ms: 500 });
@@ -148,7 +150,7 @@ pub fn c04(tier: &str, flavor: Flavor) -> Spec {
         oracle: o_c04,
         interesting: |_, t| t.ledger.iter().any(|e| e.kind != CbKind::Exit) || t.recs.iter().any(|r| matches!(r.res, Res::Val(Some(_)))),
         rule: format!(
-            "every history of depth {} over {} symbols (I(k,ttl in 0/1s/2.5s), P(k), R(k), X, A(0.5s), A(1s); keys {:?}) x {} (cleanup interval, clock phase) settings, each followed by 2 s of idle time and a lookup of every key, quiescence after every operation, every scheduling/select choice at preemption bound 0; the same histories once more with zero-charge entries (cost 0, Coster 0) and a final re-insert of every key; exact comparison with a reference map after every operation; non-trivial = a callback fired or a lookup hit",
+            "every history of depth {} over {} symbols (I(k,ttl in 0/1s/2.5s), P(k), R(k), M(k), X, A(0.5s), A(1s); keys {:?}) x {} (cleanup interval, clock phase) settings, each followed by 2 s of idle time and a lookup of every key, quiescence after every operation, every scheduling/select choice at preemption bound 0; the same histories once more with zero-charge entries (cost 0, Coster 0) and a final re-insert of every key; exact comparison with a reference map after every operation; non-trivial = a callback fired or a lookup hit",
             depth,
             alpha.len(),
             keys,
@@ -307,6 +309,11 @@ pub fn c03(tier: &str, flavor: Flavor) -> Spec {
                         }
                         // get_mut honours the deadline as well
                         ops.push(Op::Mut { k: 1 });
+                        if neighbour == 0 && reins.map(|r| !r.2).unwrap_or(false) {
+                            // the re-insert refused by the validator: the first deadline stays in force
+                            let vcfg = Cfg { validator: ValidatorMode::Never, ..cfg.clone() };
+                            jobs.push(job(single(&vcfg, flavor, settled(&ops)), &[0], "c03-vetoed-reinsert"));
+                        }
                         jobs.push(job(single(&cfg, flavor, settled(&ops)), &[0], "c03"));
                     }
                 }
@@ -319,7 +326,7 @@ pub fn c03(tier: &str, flavor: Flavor) -> Spec {
         jobs,
         oracle: o_c03,
         interesting: |_, t| has_expiry(t) || t.recs.iter().any(|r| matches!(r.res, Res::Ttl(Some(x)) if x != u128::MAX)),
-        rule: "scripted time lines: TTL in {0.3,1,1.5,2.5 s,1 h} x clock phase {0,0.35,0.95 s} x cleanup interval {0.5,2 s} x neighbour key sharing the expiry second {absent,inserted,updated,removed} x optional re-insert (at 0.25..2 s, with TTL none/0.5 s/2 s, directly or after a remove of the key); get + get_ttl + ValueRef::ttl probed every 250 ms and at deadline-1ns / deadline / deadline+1ns until deadline + 3 s, quiescence after every step, all select/scheduling choices at bound 0; exact comparison with reference deadlines; plus the tick-race family (two TTL residents, the clock jumps past their deadlines, the client re-inserts / removes without waiting for quiescence, bound 2): an entry re-inserted without TTL stays visible".into(),
+        rule: "scripted time lines: TTL in {0.3,1,1.5,2.5 s,1 h} x clock phase {0,0.35,0.95 s} x cleanup interval {0.5,2 s} x neighbour key sharing the expiry second {absent,inserted,updated,removed} x optional re-insert (at 0.25..2 s, with TTL none/0.5 s/2 s, directly or after a remove of the key, and once more with a validator that refuses the re-insert: the first deadline stays); get + get_ttl + ValueRef::ttl probed every 250 ms and at deadline-1ns / deadline / deadline+1ns until deadline + 3 s, quiescence after every step, all select/scheduling choices at bound 0; exact comparison with reference deadlines; plus the tick-race family (two TTL residents, the clock jumps past their deadlines, the client re-inserts / removes without waiting for quiescence, bound 2): an entry re-inserted without TTL stays visible".into(),
         assumptions: COMMON_ASSUMPTIONS.iter().map(|s| s.to_string()).collect(),
     }
 }
@@ -394,6 +401,21 @@ pub fn c05(tier: &str, flavor: Flavor) -> Spec {
                 ops.push(Op::Adv { ms: 1000 });
             }
             jobs.push(job(single(&cfg, flavor, settled(&ops)), &[0], "c05"));
+        }
+    }
+    // a validator that refuses overwrites: a refused write must not move (or remove) the listing of
+    // the resident entry in the expiry index either
+    for validator in [ValidatorMode::Never, ValidatorMode::Newer] {
+        let vcfg = Cfg { validator, cleanup_ms: 1000, ..Cfg::default() };
+        for s in sequences(&alpha, depth.min(4)) {
+            if !s.iter().any(|o| matches!(o, Op::Ins { ttl_ms, .. } if *ttl_ms > 0)) {
+                continue;
+            }
+            let mut ops = s.clone();
+            for _ in 0..5 {
+                ops.push(Op::Adv { ms: 1000 });
+            }
+            jobs.push(job(single(&vcfg, flavor, settled(&ops)), &[0], "c05-validator"));
         }
     }
     jobs.extend(tick_race_jobs(flavor, quick, "c05-tick-race"));
@@ -655,7 +677,7 @@ pub fn c16(tier: &str, flavor: Flavor) -> Spec {
     }
     // evictions and rejections among entries of different costs: what on_evict / on_reject are told
     // is each entry's own charge, not the newcomer's
-    let ev_alpha = [ins(1, 6, 0), ins(2, 3, 0), ins(3, 9, 0), ins(3, 4, 0), ins(1, 2, 0), ins(2, 0, 0), ins(3, 11, 0), ins(4, 500, 0)];
+    let ev_alpha = [ins(1, 6, 0), ins(2, 3, 0), ins(3, 9, 0), ins(3, 4, 0), ins(1, 2, 0), ins(2, 0, 0), ins(3, 11, 0), ins(4, 500, 0), ins(2, 5, 1000), Op::Adv { ms: 2500 }];
     for (base, modu) in [(0i64, 0u32), (2, 3)] {
         for ignore in [true, false] {
             let max_cost = if ignore { 10 } else { 10 + 2 * isz };
@@ -671,7 +693,7 @@ pub fn c16(tier: &str, flavor: Flavor) -> Spec {
         oracle: o_c16,
         interesting: |_, t| t.snaps.iter().any(|s| !s.policy.key_costs.is_empty()),
         rule: format!(
-            "coster {{const 0, const 3, 7 + seq%5}} x ignore_internal_cost {{true,false}} x max_cost {{ample, tight}} x every history of depth {} over {} symbols (I(1,c), P(1,c) for c in 0/1/5/1000, I(2,1), I(2,0)), quiescence after every write; plus histories over {{I(1,6), I(2,3), I(3,9), I(3,4), I(1,2), I(2,0), I(3,11), I(4,500) (oversize)}} on a cache of capacity 10 (evictions and rejections among entries of different costs); oracle: charge == (c != 0 ? c : coster(v)) + (ignore ? 0 : size_of StoreItem) after every step, callback cost == charged cost; non-trivial = something is charged",
+            "coster {{const 0, const 3, 7 + seq%5}} x ignore_internal_cost {{true,false}} x max_cost {{ample, tight}} x every history of depth {} over {} symbols (I(1,c), P(1,c) for c in 0/1/5/1000, I(2,1), I(2,0)), quiescence after every write; plus histories over {{I(1,6), I(2,3), I(3,9), I(3,4), I(1,2), I(2,0), I(3,11), I(4,500) (oversize), I(2,5,1s), A(2.5s) (expiry)}} on a cache of capacity 10 (evictions and rejections among entries of different costs); oracle: charge == (c != 0 ? c : coster(v)) + (ignore ? 0 : size_of StoreItem) after every step, callback cost == charged cost; non-trivial = something is charged",
             depth,
             alpha.len()
         ),
@@ -733,8 +755,10 @@ fn all_std() -> Vec<String> {
 fn o_c01(p: &Program, t: &Trace) -> Vec<Finding> {
     let mut v = o_policy(p, t);
     // "the total cost charged for RESIDENT entries": an entry that is resident without being
-    // charged escapes the bound (and can never be evicted)
+    // charged escapes the bound (and can never be evicted) ...
     v.extend(o_agree(p, t));
+    // ... and so does one that is charged less than its cost
+    v.extend(o_cost(p, t));
     v
 }
 
@@ -838,6 +862,16 @@ pub fn c01(tier: &str, flavor: Flavor) -> Spec {
     jobs.extend(popular_jobs(flavor, false, quick, "c01-popular"));
     // charges released / kept by the expiry sweep while the client refreshes the same keys
     jobs.extend(tick_race_jobs(flavor, quick, "c01-tick-race"));
+    // cost 0 = "ask the Coster", internal overhead charged on top: new inserts and in-place
+    // updates (insert, insert_if_present) on a cache in which exactly two such entries fit
+    {
+        let per = 40 + isz;
+        let ccfg = Cfg { coster_base: 40, coster_mod: 0, ignore_internal_cost: false, max_cost: 2 * per + per / 2, ..Cfg::default() };
+        let ca = [ins(1, 0, 0), ins(2, 0, 0), ins(3, 0, 0), Op::Pres { k: 1, c: 0 }, Op::Pres { k: 2, c: 0 }, ins(1, 5, 0)];
+        for s in sequences(&ca, if quick { 4 } else { 5 }) {
+            jobs.push(job(single(&ccfg, flavor, settled(&s)), &[0], "c01-coster"));
+        }
+    }
     Spec {
         id: "C01",
         jobs,
@@ -1543,6 +1577,19 @@ pub fn c17(tier: &str, flavor: Flavor) -> Spec {
             jobs.push(job(single(&cfg, flavor, settled(&s)), &[0], "c17-settled"));
         }
     }
+    // entries charged exactly zero (cost 0, Coster 0, internal cost ignored) are keys all the same
+    {
+        let zcfg = Cfg { metrics: true, max_cost: 100, coster_base: 0, coster_mod: 0, ignore_internal_cost: true, ..Cfg::default() };
+        let zero = |o: &Op| match *o {
+            Op::Ins { k, ttl_ms, .. } => Op::Ins { k, c: 0, ttl_ms },
+            Op::Pres { k, .. } => Op::Pres { k, c: 0 },
+            x => x,
+        };
+        for s in sequences(&alpha, if quick { 3 } else { 4 }) {
+            let ops: Vec<Op> = s.iter().map(zero).collect();
+            jobs.push(job(single(&zcfg, flavor, settled(&ops)), &[0], "c17-zero-charge"));
+        }
+    }
     // tiny insert buffer, processor not scheduled between the inserts: sets_dropped
     for buf in [1usize, 2] {
         let cfg = Cfg { metrics: true, max_cost: 100, buffer_size: buf, ..Cfg::default() };
@@ -1586,7 +1633,7 @@ pub fn c17(tier: &str, flavor: Flavor) -> Spec {
         oracle: o_c17,
         interesting: |_, t| t.snaps.last().and_then(|s| s.metrics.as_ref()).map(|m| m.keys_added > 0 || m.hits > 0).unwrap_or(false),
         rule: format!(
-            "metrics on. E-seq: every settled history of depth {} over 13 symbols (I(k), I(1,2), I(2,1s), P(1), R(1), G(1), G(3), M(2), A(1.5s), X, U(1)) at max_cost 2 and 100, conservation laws evaluated at EVERY quiescent point; unsettled histories over {{I(1), I(2), I(3), I(1), G(1), S}} with insert buffer 1 and 2 (forces sets_dropped); E-conc: two clients x bodies of <= {} operations from {{G(1), I(1), I(3), R(1)}} x 2 pre-states with the metric stripes as scheduling points, preemption bound 2; the same bodies against a client doing X / X;I(3) / I(3);X at bound 2; two clearing clients (lookups before / after their clears) at bound 1; one settled history (hit, miss, update, TTL expiry, remove, clear, fresh start) per metrics stripe (keys 25..49); non-trivial = keys_added > 0 or hits > 0",
+            "metrics on. E-seq: every settled history of depth {} over 13 symbols (I(k), I(1,2), I(2,1s), P(1), R(1), G(1), G(3), M(2), A(1.5s), X, U(1)) at max_cost 2 and 100, and once more with zero-charge entries, conservation laws evaluated at EVERY quiescent point; unsettled histories over {{I(1), I(2), I(3), I(1), G(1), S}} with insert buffer 1 and 2 (forces sets_dropped); E-conc: two clients x bodies of <= {} operations from {{G(1), I(1), I(3), R(1)}} x 2 pre-states with the metric stripes as scheduling points, preemption bound 2; the same bodies against a client doing X / X;I(3) / I(3);X at bound 2; two clearing clients (lookups before / after their clears) at bound 1; one settled history (hit, miss, update, TTL expiry, remove, clear, fresh start) per metrics stripe (keys 25..49); non-trivial = keys_added > 0 or hits > 0",
             if quick { 3 } else { 4 },
             if quick { 1 } else { 2 }
         ),
@@ -1884,7 +1931,10 @@ pub fn c20(tier: &str, flavor: Flavor) -> Spec {
         Op::Get { k: 4 },
         Op::Ttl { k: 4 },
         Op::Settle,
-        Op::Adv { ms: 1500 },
+        // a ValueRef obtained while the entry was live, asked for its TTL after the deadline
+        Op::GetHold { k: 4, ms: 600 },
+        Op::Ttl { k: 4 },
+        Op::Adv { ms: 900 },
         Op::Settle,
         Op::Adv { ms: 2000 },
         Op::Settle,
@@ -1978,7 +2028,7 @@ pub fn c20(tier: &str, flavor: Flavor) -> Spec {
         oracle: o_c20,
         interesting: |_, t| t.ledger.iter().any(|e| e.kind != CbKind::Exit),
         rule: format!(
-            "full product of num_counters {{{}}} x max_cost {{-1,1,5,100}} x buffer_size {{1,2,8}} x buffer_items {{0,1,2,64}} x metrics x ignore_internal_cost x cleanup {{1 ms, 0.5 s, 2 s}}, plus cleanup intervals {{1 ns, 1 us, 200 us, 999999 ns}} x num_counters {{1,64}} x max_cost {{1,100}} x buffer_size {{1,8}} x metrics, each running one fixed 30-operation workload (inserts incl. coster / oversize cost, lookups, get_mut, update, remove, TTL expiry with ticks, insert_if_present, update_max_cost, evictions, clear, wait, a final insert) under every scheduling/select choice at preemption bound 0; oracle: no panic in any task, no worker terminated, wait() Ok and the final insert processed on the idle cache, store/policy agreement, policy invariants; zero num_counters / max_cost / buffer_size rejected with the matching error; non-trivial = an evict / reject callback fired",
+            "full product of num_counters {{{}}} x max_cost {{-1,1,5,100}} x buffer_size {{1,2,8}} x buffer_items {{0,1,2,64}} x metrics x ignore_internal_cost x cleanup {{1 ms, 0.5 s, 2 s}}, plus cleanup intervals {{1 ns, 1 us, 200 us, 999999 ns}} x num_counters {{1,64}} x max_cost {{1,100}} x buffer_size {{1,8}} x metrics, each running one fixed 33-operation workload (inserts incl. coster / oversize cost, lookups, get_mut, a ValueRef held past the expiry of its entry, update, remove, TTL expiry with ticks, insert_if_present, update_max_cost, evictions, clear, wait, a final insert) under every scheduling/select choice at preemption bound 0; oracle: no panic in any task, no worker terminated, wait() Ok and the final insert processed on the idle cache, store/policy agreement, policy invariants; zero num_counters / max_cost / buffer_size rejected with the matching error; non-trivial = an evict / reject callback fired",
             if quick { "1..8, 63..70" } else { "1..70" }
         ),
         assumptions: all_std(),
@@ -2067,8 +2117,8 @@ fn o_c15(p: &Program, t: &Trace) -> Vec<Finding> {
 pub fn c15(tier: &str, flavor: Flavor) -> Spec {
     let quick = tier == "quick";
     let mut jobs = Vec::new();
-    let alpha = [Op::Get { k: 1 }, Op::Get { k: 2 }, Op::Mut { k: 1 }];
-    let lens: Vec<usize> = if quick { vec![5] } else { vec![7] };
+    let alpha = [Op::Get { k: 1 }, Op::Get { k: 2 }, Op::Mut { k: 1 }, Op::Mut { k: 2 }];
+    let lens: Vec<usize> = if quick { vec![5] } else { vec![6] };
     for capa in [0usize, 1, 2, 3] {
         let cfg = Cfg { buffer_items: capa, metrics: true, num_counters: 1000, ..Cfg::default() };
         for &l in &lens {
@@ -2114,7 +2164,7 @@ pub fn c15(tier: &str, flavor: Flavor) -> Spec {
         oracle: o_c15,
         interesting: |_, t| t.snaps.last().and_then(|s| s.metrics.as_ref()).map(|m| m.gets_kept > 0).unwrap_or(false),
         rule: format!(
-            "buffer_items in 0..=3, num_counters 1000, metrics on, key 1 resident / key 2 absent: every lookup sequence of length {} over {{G(1), G(2), M(1)}} (a) with a settle after every lookup, bound 0 and (b) unsettled with the policy worker as a scheduled task at preemption bound 2 (the worker is interrupted between taking a batch and applying it); bursts of 4*b+1 and 6*b lookups (overflow of the 3-batch queue) at bound 2; two clients x <= 2 lookups sharing the ring at bound 2; lookups of one client racing admissions / updates / removes / update_max_cost of another (the policy lock is busy when the worker gets the batch) at bound 2. Oracle at the final quiescent point: gets_kept + gets_dropped == lookups flushed in whole batches, drops only beyond 3 undelivered batches and never with prompt draining, estimate(k) >= min(16, lookups of k in kept batches); non-trivial = a batch was kept",
+            "buffer_items in 0..=3, num_counters 1000, metrics on, key 1 resident / key 2 absent: every lookup sequence of length {} over {{G(1), G(2), M(1), M(2)}} (hits and misses through get and get_mut) (a) with a settle after every lookup, bound 0 and (b) unsettled with the policy worker as a scheduled task at preemption bound 2 (the worker is interrupted between taking a batch and applying it); bursts of 4*b+1 and 6*b lookups (overflow of the 3-batch queue) at bound 2; two clients x <= 2 lookups sharing the ring at bound 2; lookups of one client racing admissions / updates / removes / update_max_cost of another (the policy lock is busy when the worker gets the batch) at bound 2. Oracle at the final quiescent point: gets_kept + gets_dropped == lookups flushed in whole batches, drops only beyond 3 undelivered batches and never with prompt draining, estimate(k) >= min(16, lookups of k in kept batches); non-trivial = a batch was kept",
             lens[0]
         ),
         assumptions: all_std(),
